@@ -9,16 +9,17 @@ the tree is still revealed afterwards, and it shares its sub-stacks with the liv
 the result depends on object identity. This is the one place where the model is not a
 tree: stacks and conditions are heap nodes, values refer to them by id.
 
-`reveal`, `revealLoop` (the `for` statement of `reveal`), `revealDescend` and
-`revealSingle` follow the Go functions statement by statement. All recursion is bounded by
+`reveal`, `revealLoop` (the `for` statement of `reveal`), `revealDescend` (with its first
+statement as `descendUpdated`) and `revealSingle` follow the Go functions statement by statement. All recursion is bounded by
 `fuel` (a bound on the depth of the call tree, loop iterations included).
 
 * `sync.Mutex` is not re-entrant: `lock()` of a mutex-enabled node that the current call
   chain already holds is `.deadlock`. `lock`/`unlock` bracket `reveal` (`defer`), so the set
   of held locks is exactly the chain of `reveal` activations, passed down as `held`.
-* `.panic` stands where Go would panic: calling `IsParen` through a nil `*Stack` /
-  `*Condition` (which satisfies `Interface`), and — never in a well-formed heap — following a
-  handle to a missing node or to a node of the wrong sort.
+* `.panic` stands where Go would panic: following a handle to a missing node or to a node of
+  the wrong sort (a nil dereference; never in a well-formed heap), an out-of-range slot.
+  A nil `*Stack` / `*Condition` element (it satisfies `Interface`, and `IsParen` through it
+  used to panic) is modelled as repaired: it is skipped like any other non-`Interface` leaf.
 * No statement of the four Go functions ever assigns a non-nil `err`, so `err` is not modelled.
 -/
 
@@ -55,12 +56,6 @@ def condAt (H : Heap) (id : Nat) : Option (Cfg × Text × Op × HVal) :=
 
 /-- `nodeConfig.positive(flag)` -/
 def cflag (c : Cfg) (f : Nat) : Bool := c.kind != 0 && Gen.cfgFlag_positive c.opt f
-
-/-- typed nil pointers to the native types, as leaves (`(*Stack)(nil)`, `(*Condition)(nil)`):
-they satisfy `Interface` (value receivers), and calling a method through them panics -/
-def nilNativePtr : Val → Bool
-  | .leaf (.opaque cls _) => cls == 20 || cls == 21
-  | _ => false
 
 def HVal.isNil : HVal → Bool
   | .atom .nil => true
@@ -114,8 +109,7 @@ structure St where
 
 /-- outcome of `child.(Interface)` followed by `assert.IsParen()` -/
 inductive Iface where
-  | no                     -- not an `Interface`
-  | nilptr                 -- `Interface` held by a nil pointer: `IsParen` panics
+  | no                     -- not an `Interface` (or a nil pointer to one: skipped)
   | paren (p : Bool)
   | broken                 -- handle to a missing node (never in a well-formed heap)
 
@@ -126,7 +120,7 @@ def iface (H : Heap) : HVal → Iface
   | .cnd _ _ => .no
   | .atom (.zstk .native) => .paren false
   | .atom (.zcnd .native) => .paren false
-  | .atom v => if nilNativePtr v then .nilptr else .no
+  | .atom _ => .no
 
 def ofFault : Fault → Abort := fun _ => .panic
 
@@ -169,49 +163,52 @@ def revealLoop : Nat → List Nat → Nat → Nat → St → Except Abort St
         | .ok _ => revealLoop fuel held r (i + 1) s
       else .ok s
 
+/-- first statement of `revealDescend` (`if inner.stackType() != not { switch inner.Len() {…} }`):
+the state afterwards and the value of `updated`; `w` is the node of `inner` -/
+def descendUpdated : Nat → List Nat → Nat → Nat → St → Except Abort (St × Option HVal)
+  | 0, _, _, _, _ => .error .fuel
+  | fuel + 1, held, r, w, s =>
+    match stackAt s.heap w with
+    | none => .error .panic
+    | some (cw, ws) =>
+      if cw.kind != Gen.kind_not then
+        if ws.length == 1 then
+          -- child, _, _ := inner.index(0)
+          match index cw ws 0 with
+          | .error f => .error (ofFault f)
+          | .ok none => .ok (s, none)
+          | .ok (some child) =>
+            -- if assert, ok := child.(Interface); ok { if !assert.IsParen() && !inner.IsParen() {
+            match iface s.heap child with
+            | .no => .ok (s, none)
+            | .broken => .error .panic
+            | .paren p =>
+              if !p && !parenS cw then
+                -- err = r.revealSingle(0); updated = child
+                match revealSingle fuel held r 0 s with
+                | .error e => .error e
+                | .ok s1 => .ok (s1, some child)
+              else .ok (s, none)
+        else
+          -- err = inner.reveal(); updated = inner
+          match reveal fuel held w s with
+          | .error e => .error e
+          | .ok s1 => .ok (s1, some (.stk .native w))
+      else .ok (s, none)
+
 /-- `func (r *stack) revealDescend(inner Stack, idx int)`; `w` is the node of `inner` -/
 def revealDescend : Nat → List Nat → Nat → Nat → Nat → St → Except Abort St
   | 0, _, _, _, _, _ => .error .fuel
   | fuel + 1, held, r, w, idx, s =>
-    match stackAt s.heap w with
-    | none => .error .panic
-    | some (cw, ws) =>
-      -- first part: decide `updated`
-      let part1 : Except Abort (St × Option HVal) :=
-        if cw.kind != Gen.kind_not then
-          if ws.length == 1 then
-            -- child, _, _ := inner.index(0)
-            match index cw ws 0 with
-            | .error f => .error (ofFault f)
-            | .ok none => .ok (s, none)
-            | .ok (some child) =>
-              -- if assert, ok := child.(Interface); ok { if !assert.IsParen() && !inner.IsParen() {
-              match iface s.heap child with
-              | .no => .ok (s, none)
-              | .nilptr => .error .panic
-              | .broken => .error .panic
-              | .paren p =>
-                if !p && !parenS cw then
-                  -- err = r.revealSingle(0); updated = child
-                  match revealSingle fuel held r 0 s with
-                  | .error e => .error e
-                  | .ok s1 => .ok (s1, some child)
-                else .ok (s, none)
-          else
-            -- err = inner.reveal(); updated = inner
-            match reveal fuel held w s with
-            | .error e => .error e
-            | .ok s1 => .ok (s1, some (.stk .native w))
-        else .ok (s, none)
-      match part1 with
-      | .error e => .error e
-      | .ok (s1, upd) =>
-        -- if updated != nil { r.replace(updated, idx) }
-        let s2 : St := match upd with
-          | some u => { s1 with heap := replaceAt s1.heap r u idx }
-          | none => s1
-        -- err = inner.reveal()
-        reveal fuel held w s2
+    match descendUpdated fuel held r w s with
+    | .error e => .error e
+    | .ok (s1, upd) =>
+      -- if updated != nil { r.replace(updated, idx) }
+      let s2 : St := match upd with
+        | some u => { s1 with heap := replaceAt s1.heap r u idx }
+        | none => s1
+      -- err = inner.reveal()
+      reveal fuel held w s2
 
 /-- `func (r *stack) revealSingle(idx int)` -/
 def revealSingle : Nat → List Nat → Nat → Nat → St → Except Abort St
